@@ -23,6 +23,9 @@ pub static DEF: PropertyDef = PropertyDef {
     generate,
     execute,
     must_hit: &["fault.host_eval.fired", "fault.host_eval.with_pending_choices", "fault.host_eval.with_pending_text", "fault.host_eval.text_function"],
+    timeout_s: 30,
+    hang_class: None,
+    sub_builds: &[],
 };
 
 fn generate(_corpus: &Corpus, tier: Tier, run: u64, rng: &mut Rng) -> Option<Case> {
